@@ -23,19 +23,22 @@ var _ io.Writer = &GatedWriter{}
 // Flush tells the GatedWriter to flush any buffered data and to stop
 // buffering.
 func (w *GatedWriter) Flush() {
+	// Hold the lock while the buffer is drained, so that a concurrent Write
+	// cannot overtake the lines that were buffered before it.
 	w.lock.Lock()
-	w.flush = true
-	w.lock.Unlock()
+	defer w.lock.Unlock()
 
+	w.flush = true
 	for _, p := range w.buf {
-		w.Write(p)
+		_, _ = w.Writer.Write(p)
 	}
 	w.buf = nil
 }
 
 func (w *GatedWriter) Write(p []byte) (n int, err error) {
-	w.lock.RLock()
-	defer w.lock.RUnlock()
+	// Appending to the buffer modifies it, so this needs the write lock.
+	w.lock.Lock()
+	defer w.lock.Unlock()
 
 	if w.flush {
 		return w.Writer.Write(p)
